@@ -181,7 +181,21 @@ func vpC07Name() {
 	vpAssert("registry/no-error/"+cell, err == nil && reg != nil)
 	vpAssert("registry/go-type/"+cell, vpGoTypeName(reg) == spec.goType)
 
-	switch vpChoice(5) {
+	switch vpChoice(6) {
+	case 5: // a document that says nothing but its type still is a value of that type, wherever it stands
+		bare := `{"type":"` + string(name) + `"}`
+		y, err := UnmarshalJSON([]byte(bare))
+		vpAssert("json-bare/decodes/"+cell, err == nil && y != nil)
+		if y != nil {
+			vpAssert("json-bare/go-type/"+cell, vpGoTypeName(y) == spec.goType)
+			vpAssert("json-bare/type/"+cell, y.GetType() == name)
+		}
+		y, err = UnmarshalJSON([]byte(`{"id":"https://h.ex/outer","type":"Note","icon":` + bare + `,"tag":["https://h.ex/first",` + bare + `]}`))
+		vpAssert("json-bare-nested/decodes/"+cell, err == nil && y != nil)
+		if o, ok := y.(*Object); ok {
+			vpAssert("json-bare-nested/present/"+cell, o.Icon != nil && vpGoTypeName(o.Icon) == spec.goType)
+			vpAssert("json-bare-list/present/"+cell, len(o.Tag) == 2 && vpGoTypeName(o.Tag[1]) == spec.goType)
+		}
 	case 0: // JSON top level
 		y, err := UnmarshalJSON(vpC07Doc(name, idc, txt))
 		vpAssert("json-top/decodes/"+cell, err == nil && y != nil)
